@@ -10,6 +10,19 @@ import traceback
 from . import model, report, registry
 
 
+
+def out(*a, **k):
+    """print that survives a reader which closed the pipe early (`./check C01 | head -1`): the verdict is the exit code."""
+    try:
+        print(*a, **k)
+        sys.stdout.flush()
+    except BrokenPipeError:
+        try:
+            sys.stdout = open(os.devnull, "w")
+        except OSError:
+            pass
+
+
 def run_property(prop, tier, seed, root=None, overlay=None, only=None, quiet=False, write=True):
     """Run all rules of a property.  Returns (exit code, Check)."""
     t0 = time.time()
@@ -42,7 +55,7 @@ def run_property(prop, tier, seed, root=None, overlay=None, only=None, quiet=Fal
         from . import mutants
 
         mutation = mutants.non_vacuity(prop, root)
-    pf = (lambda *a, **k: None) if quiet else print
+    pf = (lambda *a, **k: None) if quiet else out
     code = report.finish(chk, t0, mod.LEVEL, mod.LEVEL_TEXT, mod.TRUSTED, mutation=mutation, print_fn=pf)
     if partial is not None:
         pf("ANALYSIS-ERROR (after the violations above; remaining rules not decided): %s" % partial)
@@ -82,14 +95,14 @@ def main(argv=None):
     try:
         if a.replay:
             j = json.load(open(a.replay))
-            print("replaying %s: re-running rule %s of %s on the current tree" % (a.replay, j["rule"], j["property"]))
+            out("replaying %s: re-running rule %s of %s on the current tree" % (a.replay, j["rule"], j["property"]))
             code, chk = run_property(j["property"], a.tier, seed, root=a.root, only=j["rule"], write=False)
             hit = [f for f in chk.findings() if f.key == j["key"]]
             for f in hit:
-                print("VIOLATION property=%s replay=%s" % (j["property"], a.replay))
-                print("   " + f.human())
+                out("VIOLATION property=%s replay=%s" % (j["property"], a.replay))
+                out("   " + f.human())
             if not hit:
-                print("finding %s no longer reported" % j["key"])
+                out("finding %s no longer reported" % j["key"])
             return 1 if hit else 0
         if a.selftest:
             from . import mutants
@@ -105,10 +118,10 @@ def main(argv=None):
         code, _ = run_property(a.prop, a.tier, seed, root=a.root, only=a.only)
         return code
     except model.AnalysisError as e:
-        print("ANALYSIS-ERROR: %s" % e)
+        out("ANALYSIS-ERROR: %s" % e)
         return 2
     except Exception:
-        print("ANALYSIS-ERROR: internal error in the checker:")
+        out("ANALYSIS-ERROR: internal error in the checker:")
         traceback.print_exc(file=sys.stdout)
         return 2
 
